@@ -442,11 +442,15 @@ def _equal_or_same(a, b):
         return a_missing and b_missing
     # numpy scalars (cells of nullable or object columns) are rounded to a common type before
     # they are compared, e.g. np.int64(2**53 + 1) == 2.0**53; python numbers compare exactly
-    if isinstance(a, (np.number, np.bool_)):
-        a = a.item()
-    if isinstance(b, (np.number, np.bool_)):
-        b = b.item()
+    a, b = _as_python_number(a), _as_python_number(b)
     return a == b or a is b
+
+
+def _as_python_number(x):
+    # np.timedelta64 is a numpy "integer" whose item() is a bare count or a timedelta: left as it is
+    if isinstance(x, (np.number, np.bool_)) and not isinstance(x, np.timedelta64):
+        return x.item()
+    return x
 
 
 def _is_missing(x):
